@@ -11,7 +11,8 @@ EXTRACTED = []
 CASE_IMPORTS = 'From V Require Import C09.Model C09.Proofs C09.Corr.\nFrom Coq Require Import QArith.'
 RULE = ('systems of 1-3 molecules handled by ONE DoAverageBead instance, each molecule with its own force field '
         '(centre weight configured or not), 1-4 particles with 0-8 constituents: unequal mapping weights incl. 0, '
-        'default weights, negative weights that cancel, atoms shared between particles, constituents with missing '
+        'default weights, negative weights that cancel, atoms shared between particles, particles without constituents (no graph '
+        'attribute) anywhere in the molecule, positions left over from an earlier run, constituents with missing '
         'coordinates combined with unequal weights (the case where a mis-paired weight shows), missing centre-weight '
         'attribute (KeyError); plus metamorphic pairs: the same particle before and after a rational rigid motion / '
         'general affine map of all input coordinates. non-trivial = a particle with >= 2 positioned constituents of unequal '
@@ -61,7 +62,16 @@ def gen_sys(rng):
     for _ in range(rng.randint(1, 3)):
         use_cw = rng.choice([None, None, 'mass'])
         pool = []
-        mols.append({'cw': use_cw, 'beads': [gen_bead(rng, pool, use_cw) for _ in range(rng.randint(1, 4))]})
+        beads = [gen_bead(rng, pool, use_cw) for _ in range(rng.randint(1, 4))]
+        if rng.random() < 0.35:
+            # particles that represent no atoms (no 'graph' attribute: virtual sites), anywhere in the molecule, and
+            # positions left over from an earlier run
+            for _ in range(rng.choice([1, 1, 2])):
+                beads.insert(rng.randrange(len(beads) + 1), {'nograph': True, 'cons': [], 'mw': {}})
+        for b in beads:
+            if rng.random() < 0.3:
+                b['prior'] = [rng.choice([999.0, -7.5, 0.125]) for _ in range(3)]
+        mols.append({'cw': use_cw, 'beads': beads})
     return {'kind': 'sys', 'mols': mols}
 
 
@@ -86,7 +96,8 @@ def _run_mols(mols):
     import vermouth.forcefield
     import vermouth.molecule
     from vermouth.processors.average_beads import DoAverageBead
-    proc = DoAverageBead()
+    # martinize2 runs the processor with ignore_missing_graphs=True; without it a particle without a graph is an error
+    proc = DoAverageBead(ignore_missing_graphs=True) if any(b.get('nograph') for m in mols for b in m['beads']) else DoAverageBead()
     out = []
     for m in mols:
         ff = vermouth.forcefield.ForceField(name='ff_%s' % m['cw'])
@@ -102,7 +113,12 @@ def _run_mols(mols):
                 if c['cw'] is not None:
                     attrs['mass'] = c['cw']
                 g.add_node(c['key'], **attrs)
-            mol.add_node(bi, graph=g, mapping_weights=dict(b['mw']))
+            if b.get('nograph'):
+                mol.add_node(bi, atomname='VS')
+            else:
+                mol.add_node(bi, graph=g, mapping_weights=dict(b['mw']))
+            if b.get('prior') is not None:
+                mol.nodes[bi]['position'] = np.array(b['prior'], dtype=float)
         try:
             proc.run_molecule(mol)
             for bi in range(len(m['beads'])):
@@ -153,6 +169,8 @@ def res_lit(r):
         return 'INaN'
     if r[0] == 'keyerror':
         return 'IKeyError'
+    if r[0] == 'missing':
+        return 'IMissing'
     return 'INaN'
 
 
@@ -163,7 +181,9 @@ def emit(inp, out):
         for m in inp['mols']:
             items = []
             for b in m['beads']:
-                items.append('(%s, %s)' % (bead_lit(b, m['cw']), res_lit(out['res'][i])))
+                part = 'PNoGraph' if b.get('nograph') else 'PBead %s' % bead_lit(b, m['cw'])
+                prior = optlit(b.get('prior'), lambda p: '(%s, %s, %s)' % (q(p[0]), q(p[1]), q(p[2])))
+                items.append('(%s, %s, %s)' % (part, prior, res_lit(out['res'][i])))
                 i += 1
             mols.append('[%s]' % '; '.join(items))
         return 'CSys [%s]' % '; '.join(mols)
@@ -196,6 +216,7 @@ def describe(inp, out):
     beads = [b for m in inp['mols'] for b in m['beads']]
     return {'kind': 'sys', 'n_mols': len(inp['mols']), 'mixed_cw': len({m['cw'] for m in inp['mols']}) > 1,
             'has_nan': 'nan' in res, 'has_keyerror': 'keyerror' in res,
+            'graphless_particles': sum(1 for b in beads if b.get('nograph')), 'stale_positions': any(b.get('prior') for b in beads),
             'missing_pos_with_unequal_w': any(_nontrivial_bead(b) and any(c['pos'] is None for c in b['cons']) for b in beads)}
 
 
